@@ -11,7 +11,7 @@ RULE = ("channel_grid: every ordered pair of ChannelIdentifier over qubit ids -2
         "identifiers (ids -50..50), pairs of edge and qubit identifiers over a 5-letter name alphabet (forces "
         "collisions) plus near-miss spellings of every name (other letter case, surrounding blank, zero padding, full-width "
         "digits, proper prefix / extension, trailing NUL, casefold-equal letters) incl. foreign-type operands, and sequences of hashable elements (ints, strings, tuples, qubit and "
-        "edge ids). Non-trivial = the pair shares a qubit / the edges share >= 1 qubit name / the sequence contains a "
+        "edge ids). edge_orientation: every Surface-17 edge and four non-edges x the device layer and the three shipped repetition-code layouts: everything the layout answers about an edge (contains, parity group, membership and count in edge_ids, per gate layer contains / membership, gate-sequence lookup; exceptions by type) must be the same for both orientations, and layer.contains(edge) must agree with membership in the layer's edge list (exhaustive). Non-trivial = the pair shares a qubit / the edges share >= 1 qubit name / the sequence contains a "
         "duplicate; distinct = distinct canonical JSON of the generated case.")
 ASSUMPTIONS = [
     "oracle for channel matching: same qubit and (same channel or one side is ALL) - transcribed from the property statement",
@@ -221,6 +221,75 @@ def body_qubits(case, ctx):
         ctx.fail("qubit-accessors", f"id/name {ident} for {a!r}")
 
 
+# ------------------------------------------------------------------------------------------------------------------
+# edge identity through the library's own lookups: whatever takes an edge gives the same answer for both orientations
+# ------------------------------------------------------------------------------------------------------------------
+LAYOUTS = ["Surface17Layer", "Repetition9Code", "Repetition9Round6Code", "Repetition5Round4Code"]
+
+
+def _layout(name):
+    if name == "Surface17Layer":
+        from qce_circuit.connectivity.connectivity_surface_code import Surface17Layer
+        return Surface17Layer()
+    from qce_circuit.library.repetition_code import repetition_code_connectivity as layouts
+    return getattr(layouts, name)()
+
+
+def items_orientation(tier):
+    from .. import device as D
+    extra = [("D1", "D2"), ("X1", "Z1"), ("D5", "X1"), ("D1", "Q9")]      # pairs that are no edge of the device
+    for name in LAYOUTS:
+        for a, b in list(D.EDGES) + extra:
+            yield {"layout": name, "edge": [a, b]}
+
+
+def body_orientation(case, ctx):
+    from qce_circuit.connectivity.intrf_channel_identifier import EdgeIDObj, QubitIDObj
+    from .. import device as D
+    a, b = case["edge"]
+    is_edge = tuple(sorted((a, b))) in {tuple(sorted(e)) for e in D.EDGES}
+    ctx.case(case, nontrivial=is_edge, classes=[f"layout={case['layout']}", f"device_edge={is_edge}"])
+
+    def answers(x, y):
+        """Everything the layout says about the edge written x-y (exceptions by type)."""
+        layout = _layout(case["layout"])
+        e = EdgeIDObj(QubitIDObj(x), QubitIDObj(y))
+        out = {}
+
+        def ask(key, f):
+            try:
+                out[key] = f()
+            except Exception as exc:       # noqa: BLE001 - an orientation-dependent exception is the finding
+                out[key] = f"raises {type(exc).__name__}"
+        ask("contains", lambda: bool(layout.contains(e)))
+        ask("parity_group", lambda: sorted(g.ancilla_id.id for g in layout.get_parity_group(e)))
+        ask("in_edge_ids", lambda: e in layout.edge_ids)
+        ask("count_edge_ids", lambda: layout.edge_ids.count(e))
+        if hasattr(layout, "gate_sequence_count"):
+            n = layout.gate_sequence_count
+            layers = [layout.get_gate_sequence_at_index(i) for i in range(n)]
+            ask("layer_contains", lambda: [bool(layer.contains(e)) for layer in layers])
+            ask("layer_edge_membership", lambda: [e in layer.edge_ids for layer in layers])
+            ask("sequence_from_element", lambda: [i for i, layer in enumerate(layers)
+                                                  if layer is layout.get_gate_sequence_from_element(e)
+                                                  or layer == layout.get_gate_sequence_from_element(e)])
+        return out
+
+    fwd = rev = None
+    with ctx.lib("edge lookups"):
+        fwd, rev = answers(a, b), answers(b, a)
+    if fwd is None or rev is None:
+        return
+    for key in fwd:
+        if fwd[key] != rev.get(key):
+            ctx.fail("edge-orientation", f"{case['layout']}: {key} for edge {a}-{b} gives {fwd[key]}, for {b}-{a} gives {rev.get(key)}")
+    # and the two ways of asking a layer agree: contains(edge) <=> the edge is one of the layer's gates
+    if "layer_contains" in fwd and isinstance(fwd["layer_contains"], list) and isinstance(fwd.get("layer_edge_membership"), list):
+        if fwd["layer_contains"] != fwd["layer_edge_membership"]:
+            ctx.fail("edge-orientation", f"{case['layout']}: layer.contains({a}-{b}) = {fwd['layer_contains']} but membership in the "
+                     f"layers' edge lists = {fwd['layer_edge_membership']}")
+
+
 def strat_unique():
     from hypothesis import strategies as st
     atom = (st.integers(-3, 5) | st.sampled_from(["a", "b", "", "ab"]) | st.tuples(st.integers(0, 2), st.integers(0, 2)).map(list)
@@ -284,6 +353,7 @@ def parts():
         Part("channel_grid", body_channel_pair, items=items_channel_grid, exhaustive=True),
         Part("channel_triples", body_channel_triple, strategy=strat_channel_triples, quick=3000, thorough=20000, fuzz_quick=2000, fuzz_thorough=30000),
         Part("edges", body_edges, strategy=strat_edges, quick=3000, thorough=10000),
+        Part("edge_orientation", body_orientation, items=items_orientation, exhaustive=True),
         Part("qubit_ids", body_qubits, strategy=strat_qubits, quick=2000, thorough=10000),
         Part("unique", body_unique, strategy=strat_unique, quick=3000, thorough=20000, fuzz_quick=2000, fuzz_thorough=30000),
     ]
